@@ -83,10 +83,10 @@ def bands(rec, part, parts):
     def one(case):
         kind, payload = case
         vals = np.array([1.5 + 0.25 * g for g in payload]) if kind == 'tie pattern' else np.array(payload)
-        times = [2.0, 0.5]
+        times = [2.0, 0.5] if kind == 'tie pattern' or len(payload) % 2 else [86400.25, 86400.0, 0.5]     # distinct times that are close relative to their magnitude must not be pooled
         rows = []
         for t in times:
-            shift = 10.0 * t
+            shift = 10.0 * t if t < 1000 else (40.0 if t == 86400.0 else -40.0)
             for v in vals:
                 rows.append({'Time': t, 'Observable': 'o', 'Value': v + shift, 'ID': 1, 'Dose': np.nan, 'Duration': np.nan})
         df = pd.DataFrame(rows)
@@ -165,6 +165,10 @@ def frames(rng, n_cases):
         if len(df) == 0 or df[K['obs']].dropna().empty:
             continue
         df['extra'] = 'x'
+        if k % 3 == 1:
+            df.index = rng.integers(0, 4, len(df))          # repeated row labels (e.g. frames concatenated without ignore_index): plotting must select rows, not labels
+        elif k % 3 == 2:
+            df.index = ['r%d' % v for v in rng.permutation(len(df))]
         yield k, df, K, obs
 
 
